@@ -3,11 +3,11 @@ import SimilarVerif.Lemmas.TextDiff
 import SimilarVerif.Lemmas.HeadlineGlue
 /-! # Glue for the strengthened C05 headline theorem (Props/Headline/C05.lean)
 
-`Exact` discharged end to end for text diffs: for the repaired swap, every algorithm, `alg = .lcs ∨ w.clock = none`
-(LCS under every clock; Myers and Patience without a deadline), `textDiffOps` RETURNS a valid, alternating script
-over the token comparison in which every op carries exact positions — for ANY two token arrays (the in-bounds
-hypotheses of `C11.capture_exact_repaired_total`, including Patience's same-side tests, hold for the environment of
-two token arrays).
+`Exact` discharged end to end for text diffs: for the repaired swap, EVERY algorithm and EVERY world (every clock:
+also Myers and Patience under a deadline that expires in the middle of the run — `C11.capture_exact_repaired_every_clock'`),
+`textDiffOps` RETURNS a valid, alternating script over the token comparison in which every op carries exact
+positions — for ANY two token arrays (the in-bounds hypotheses of `C11.capture_exact_repaired_every_clock'`,
+including Patience's same-side tests, hold for the environment of two token arrays).
 -/
 namespace SimilarVerif.Headline.G1
 open SimilarVerif Spec
@@ -18,18 +18,29 @@ theorem rangesInBounds_ofTokens (old new : Array Bytes) :
   RangesInBounds.of_eqPattern (Nat.zero_le _) (Nat.zero_le _)
     (IdentP.eqPattern_ofTokens old new 0 old.size 0 new.size (Nat.le_refl _) (Nat.le_refl _))
 
-/-- **exact positions for text diffs, end to end (repaired swap)**: every algorithm, LCS under every clock, Myers
-and Patience without a deadline, any two token arrays -/
-theorem textDiffOps_exact_repaired (alg : Alg) (old new : Array Bytes) (w : World)
-    (halg : alg = .lcs ∨ w.clock = none) :
+/-- **exact positions for text diffs, end to end (repaired swap)**: every algorithm, every world (every clock, also
+an expiring deadline), any two token arrays.  (Until `CaptureClock.capture_exact_repaired_every_clock'` this carried
+the hypothesis `alg = .lcs ∨ w.clock = none`.) -/
+theorem textDiffOps_exact_repaired (alg : Alg) (old new : Array Bytes) (w : World) :
     ∃ ops w', textDiffOps alg true old new w = .ok (ops, w') ∧
       Walk (eqB (Env.ofTokens old new)) 0 0 ops old.size new.size ∧ Exact 0 0 ops ∧ Alternating ops := by
   have hr := rangesInBounds_ofTokens old new
   rw [IdentP.textDiffOps_eq_capture]
-  rcases halg with rfl | hclk
-  · exact C11.capture_lcs_exact_repaired _ 0 old.size 0 new.size w hr.old_le hr.new_le hr.cross
-  · exact C11.capture_exact_repaired_total alg _ 0 old.size 0 new.size w hr.old_le hr.new_le hr.cross
-      (fun _ => ⟨hr.oldSide, hr.newSide⟩) hclk
+  exact C11.capture_exact_repaired_every_clock' alg _ 0 old.size 0 new.size w hr.old_le hr.new_le hr.cross
+    (fun _ => ⟨hr.oldSide, hr.newSide⟩)
+
+/-- non-vacuity under an EXPIRING deadline: the tokens `"b" "a"` vs `"a" "a" "a"`, clock `some 0`, Myers and Patience —
+the deadline fallback pair is swapped by the clean-up and the Insert survives as a stand-alone op with the exact old
+index 2 (the shipped swap leaves `insert(1,1,2)`) -/
+example : ∀ alg : Alg, alg ≠ .lcs →
+    (textDiffOps alg true #[[98], [97]] #[[97], [97], [97]] { clock := some 0 }).map (·.1) =
+      .ok [.delete 0 1 0, .equal 1 0 1, .insert 2 1 2] ∧
+    (textDiffOps alg false #[[98], [97]] #[[97], [97], [97]] { clock := some 0 }).map (·.1) =
+      .ok [.delete 0 1 0, .equal 1 0 1, .insert 1 1 2] := by
+  intro alg h; cases alg
+  · exact ⟨by rfl, by rfl⟩
+  · exact ⟨by rfl, by rfl⟩
+  · exact absurd rfl h
 
 end SimilarVerif.Headline.G1
 
